@@ -295,6 +295,17 @@ class FactoryOracle:
         st.stamps.append((kind, value))
 
     def on_create_pallet(self, pallet):
+        # the observing list replaces the pallet's own list; keep aliasing visible: two pallets whose `items` are one and
+        # the same list object (a shared default) would otherwise be silently separated by the instrumentation
+        seen = getattr(self, "_pallet_lists", None)
+        if seen is None:
+            seen = self._pallet_lists = {}
+        orig = pallet.items
+        prev = seen.get(id(orig))
+        if prev is not None and prev[0] is orig and prev[1] is not pallet:
+            self.mon.violation("C03", "pallet_shares_items_list", "pallet:two-pallets-share-one-items-list:an-item-packed-in-one-is-in-both",
+                               {"pallet": getattr(pallet, "id", None), "other": getattr(prev[1], "id", None)})
+        seen[id(orig)] = (orig, pallet)
         ol = ObsList(pallet.items)
         ol._pallet = pallet
         ol._fo = self
@@ -498,6 +509,9 @@ class FactoryOracle:
         if not ok:
             mon.violation("C03", "discard_illegal", f"{L.type}:discarded-an-item-it-does-not-hold",
                           {"node": L.id, "item": sx.iid, "state": (sx.state, sx.where)})
+            if sx.state == "DISCARDED" and sx.where == L.id:
+                mon.violation("C09", "discard_count_step", f"{L.type}:discard-counter-rose-more-than-once-for-one-dropped-item",
+                              {"node": L.id, "item": sx.iid, "count": new})
         self._set(sx, "DISCARDED", L.id)
         L.discards.append((now, sx.iid))
         self.events.append((now, "discard", L.id, sx.iid))
@@ -1095,8 +1109,6 @@ class FactoryOracle:
                 if rec.state == "granted" and now > rec.t_grant + PERSIST:
                     if rec.side == "get" and L.type == "splitter" and L.held >= 1:
                         continue      # legitimately waits for its single worker
-                    if rec.side == "get" and L.type == "combiner":
-                        continue
                     self._suspect(("tok", id(rec)), now, "C10", "granted_reservation_unused",
                                   f"{L.type}:{proc.mon_name}:granted-{rec.side}-reservation-neither-used-nor-cancelled",
                                   {"node": L.id, "edge": rec.sh.label, "granted": rec.t_grant})
@@ -1523,8 +1535,25 @@ class FactoryOracle:
     # ---------------------------------------------------------------- C03 / C10 quiescence
     def _finish_quiescence(self, T):
         mon = self.mon
+        # whatever the topology: at the end of a long finite run an unreserved item that sits in an edge while a retrieval
+        # request waits on that very edge will never be received (nothing is left to wake the request)
+        last_any = max([st.t_state for st in self.items.values()] or [0])
+        if T - last_any >= 20:
+            for eid, edge in self.m.edges.items():
+                store = getattr(edge, "inbuiltstore", None)
+                if store is None:
+                    store = edge.belt
+                sh = mon.shadow(store)
+                mon.counters["c03_end_of_finite_run_edges_checked"] += 1
+                if sh.pend["get"] and self._avail(edge) > 0 and not sh.dead:
+                    mon.violation("C03", "stranded_while_retrieval_waits",
+                                  f"{sh.kind}:finite-run-ended-with-an-available-item-in-the-edge-and-a-retrieval-request-still-waiting-there",
+                                  {"edge": eid, "available": self._avail(edge), "waiting": len(sh.pend["get"]), "T": T, "last_movement": last_any})
         if any(L.type == "combiner" for L in self.ledgers.values()):
             mon.counters["quiescence_skipped_combiner"] += 1
+            return
+        if any(e.src_node is e.dest_node for e in self.m.edges.values()):
+            mon.counters["quiescence_skipped_cyclic_model"] += 1     # a rework loop may deadlock or circulate for ever by design
             return
         # drainable only if no node can wait forever on one in-edge while another one holds items
         for L in self.ledgers.values():
